@@ -1,4 +1,5 @@
 import SoxrModel.Cr.Stream
+import SoxrModel.Cr.PullTotal
 /-!
 # C08 Progress: every call returns, draining terminates, latency stays bounded
 
@@ -65,12 +66,13 @@ theorem latency_bounded (e e' : Eng) (olen fuel : Nat) (h : e.process fuel olen 
 theorem every_history_runs (e : Eng) (ops : List StreamOp) (h : Streaming e) : ∃ F D e', Streams e ops F D e' :=
   streams_total ops e h
 
-/-- Not yet proved in Lean (decided on the real code by the watchdog and by the request/answer correspondence of the
-    pull loop): for every finite supply behaviour the `do … while` of `soxr_output` ends after at most
-    `#answers + 1` iterations. -/
-def Goal_pull_loop_terminates : Prop :=
-  ∀ (num : Num) (a : Api) (len0 : Nat) (script : List Supply), PipeWF a.eng.stages → a.eng.stages ≠ [] →
-    ∃ fuel, (a.output num fuel len0 script).isSome
+/-- **A pull loop over `soxr_output` always terminates.**  For every well-formed engine, every request and EVERY finite
+    behaviour of the input function (any supplies, end-of-input or failure at any call) there is an amount of fuel from
+    which on `soxr_output` returns: each iteration of its `do … while` consumes one answer or leaves the loop
+    (at most `#answers + 1` iterations), and every `soxr_output_no_callback` inside it terminates. -/
+theorem pull_loop_terminates (num : Num) (a : Api) (len0 : Nat) (script : List Supply) (hwf : PipeWF a.eng.stages)
+    (hne : a.eng.stages ≠ []) : ∃ F, ∀ fuel, F ≤ fuel → (a.output num fuel len0 script).isSome = true :=
+  output_total num a len0 script ⟨hwf, hne⟩
 
 /-! ## non-vacuity -/
 def exEng : Eng := { stages :=
